@@ -73,19 +73,42 @@ def run_hash_seed(res, ast):
         res.check(int_lit(seed["expr"]) is not None, "HASH-SEED", f"{HASHER}|DEFAULT_SEED", where(HASHER, seed, "DEFAULT_SEED"), "DEFAULT_SEED must be an integer literal")
         # hasher methods use only their state, the argument and constants
         im = [i for i in ast.items(HASHER, "Impl") if i["trait"] and i["trait"]["name"] == "Hasher"]
+        local = {f["name"]: f["node"] for f in ast.find_fns(HASHER) if not is_test_item(f) and f["node"].get("body")}
+        statics = {i["name"] for i in ast.items(HASHER, "Static")}
+        PURE_STD = ("from_le_bytes", "from_be_bytes", "from_ne_bytes", "from", "wrapping_mul", "wrapping_add", "rotate_left", "rotate_right", "Self")
+
+        def impurities(fn, seen=()):
+            """what makes this function depend on anything but its arguments, its state and constants (local helpers are followed)"""
+            out = []
+            for n in walk(fn["body"]):
+                t_ = n.get("t")
+                if t_ == "MacroExpr" and n["mac"]["name"] not in ("debug_assert", "debug_assert_eq", "assert", "assert_eq"):
+                    out.append(f"macro {n['mac']['name']}!")
+                if t_ == "Call":
+                    nm = (path_name(strip_paren(n["func"])) or "?")
+                    base = nm.split("::")[-1]
+                    if base in local and base not in seen and (nm.count("::") == 0 or nm.split("::")[0] in ("Self", "FastHasher")):
+                        out += [f"{base}: {x}" for x in impurities(local[base], seen + (base,))]
+                    elif base in PURE_STD and nm.split("::")[0] in ("u8", "u16", "u32", "u64", "u128", "usize", "Self", "FastHasher"):
+                        pass
+                    else:
+                        out.append(f"call of {nm}")
+                if t_ == "Cast" and "usize" in n["ty"]["s"] and n["expr"]["t"] == "Reference":
+                    out.append("address taken as a number")
+                if t_ == "Cast" and n["expr"]["t"] in ("PathExpr",) and "*" in n["ty"]["s"]:
+                    out.append("pointer cast")
+                if t_ == "PathExpr" and (n["path"]["name"].split("::")[0] in ("std", "Instant", "SystemTime", "thread", "RandomState") or n["path"]["name"] in statics):
+                    out.append(f"path {n['path']['name']}")
+            return out
         bad = []
+        nfn = 0
         for it in im:
             for fn in it["items"]:
                 if fn["t"] != "Fn":
                     continue
-                for n in walk(fn["body"]):
-                    if n.get("t") in ("Call", "MacroExpr"):
-                        bad.append(fn["name"])
-                    if n.get("t") == "Cast" and "usize" in n["ty"]["s"] and n["expr"]["t"] == "Reference":
-                        bad.append(fn["name"])
-                    if n.get("t") == "PathExpr" and n["path"]["name"].split("::")[0] in ("std", "Instant", "SystemTime", "thread", "RandomState"):
-                        bad.append(fn["name"])
-        res.check(not bad and len(im) == 1, "HASH-SEED", f"{HASHER}|impl Hasher|pure", HASHER,
+                nfn += 1
+                bad += [f"{fn['name']}: {x}" for x in impurities(fn)]
+        res.check(not bad and len(im) == 1 and nfn >= 2, "HASH-SEED", f"{HASHER}|impl Hasher|pure", HASHER,
                   f"the hasher's methods must be pure functions of (state, input); suspicious: {sorted(set(bad))}")
         # the public wrappers are only constructed with FastHasherBuilder
         ctors = [c for f in ast.find_fns(HASHER) if not is_test_item(f) for c in walk_t(f["node"].get("body") or {}, "Call")
